@@ -168,6 +168,13 @@ func (f *Frame) execCall(cur *blockCur, in ssa.Instruction, cc *ssa.CallCommon, 
 						f.c.callHist = map[string][]callRec{}
 					}
 					f.c.callHist[n] = append(f.c.callHist[n], callRec{cond: cur.reach, val: v})
+					// returned(NAME, k): the k-th call site of NAME in source order
+					if k := f.callOrdinal(n, in); k > 0 {
+						nk := fmt.Sprintf("%s#%d", n, k)
+						f.c.lastCall[nk] = v
+						f.c.lastCallBlock[nk] = in.Block()
+						f.c.callHist[nk] = append(f.c.callHist[nk], callRec{cond: cur.reach, val: v})
+					}
 				}
 			}
 		}
